@@ -881,6 +881,8 @@ func mergeContract(dst, src *Contract) {
 		if d := dst.Loops[k]; d != nil {
 			d.Invariants = append(d.Invariants, ls.Invariants...)
 			d.Decreases = append(d.Decreases, ls.Decreases...)
+			d.Steps = append(d.Steps, ls.Steps...)
+			d.Exits = append(d.Exits, ls.Exits...)
 		} else {
 			dst.Loops[k] = ls
 		}
